@@ -456,7 +456,7 @@ func genDeepGrammar(r *rng) toolInput {
 func genLRRecovery(r *rng) toolInput { return genLRRecoveryN(r, -1) }
 
 // lrShapeCount is the number of shapes genLRRecoveryN knows.
-const lrShapeCount = 15
+const lrShapeCount = 17
 
 // genLRRecoveryN takes shape i (every shape once when i counts up), or a drawn one.
 func genLRRecoveryN(r *rng, i int) toolInput {
@@ -485,6 +485,11 @@ func genLRRecoveryN(r *rng, i int) toolInput {
 		// of who uses whom)
 		"Line <- k:Key WS ( '=' / %{noeq} ) WS Value? !. //{noeq} WS\nKey <- [a-z]+\nValue <- [0-9]+\nWS <- [ \\t]*\n",
 		"A <- L 'x' ( 'y' / %{e} ) //{e} L\nL <- 'l'\nB <- A 'b'\n",
+		// two cycles through one rule whose member names, written one after the
+		// other, read the same (AB+C = A+BC): whatever identifies a set of rules by
+		// its joined names takes the two cycles for one
+		"Expr <- AB 'x' / A 'y' / 'e'\nAB <- C 'c'\nC <- Expr 'd'\nA <- BC 'a'\nBC <- Expr 'b'\n",
+		"S <- AB 'x' / A 'y' / 's'\nAB <- CD 'c'\nCD <- S 'd'\nA <- BCD 'a'\nBCD <- S 'b'\n",
 	}
 	if len(shapes) != lrShapeCount {
 		panic("lrShapeCount is out of date")
@@ -510,6 +515,9 @@ func genLRRecoveryN(r *rng, i int) toolInput {
 	}
 	if strings.Contains(g, "A11") {
 		name, rules = "digitnames", []string{"A", "A1"}
+	}
+	if strings.Contains(g, "BC <-") || strings.Contains(g, "BCD <-") {
+		name, rules = "joinednames", []string{"A", "AB"}
 	}
 	return toolInput{Name: name, Class: "genlr", Grammar: []byte(g), Rules: rules}
 }
